@@ -11,7 +11,8 @@ namespace SigV4.C06
 `len`-byte prefix changes nothing. (The code feeds all `M = 44 ≤ 64` bytes of the buffer.) -/
 theorem hmac_zero_pad (H : Bytes → Bytes) (k m : Bytes) (z : Nat) (h : k.length + z ≤ 64) :
     hmac H (k ++ List.replicate z 0) m = hmac H k m := by
-  sorry
+  unfold hmac
+  rw [hmacKeyBlock_zero_pad H k z h]
 
 /-- A secret is accepted iff it fits behind the 4-byte prefix; longer ones are refused with the
 error, and construction never panics — whatever the capacity. -/
@@ -19,19 +20,39 @@ theorem length_rule (M : Nat) (s : Bytes) :
     (s.length + 4 ≤ M → ∃ k, secretFromStr M s = .ok k) ∧
     (s.length + 4 > M → secretFromStr M s = .tooLong) ∧
     (∀ site, secretFromStr M s ≠ .panic site) := by
-  sorry
+  refine ⟨fun h => ?_, fun h => ?_, fun site => ?_⟩
+  · exact ⟨_, (secretFromStr_ok_iff M s _).2 ⟨h, rfl⟩⟩
+  · unfold secretFromStr
+    rw [if_pos]
+    omega
+  · unfold secretFromStr
+    split <;> intro h <;> cases h
 
 /-- The secret read back from a key object is the secret that was put in, and the buffer has the
 declared capacity. -/
 theorem secret_roundtrip (M : Nat) (s : Bytes) (k : SecretKey) (h : secretFromStr M s = .ok k) :
     k.asRef = s ∧ k.buf.length = M ∧ k.buf.take k.len = AWS4 ++ s := by
-  sorry
+  obtain ⟨hl, rfl⟩ := (secretFromStr_ok_iff M s k).1 h
+  have h4 : AWS4.length = 4 := rfl
+  have ht : ((AWS4 ++ s) ++ List.replicate (M - 4 - s.length) (0 : UInt8)).take (s.length + 4)
+      = AWS4 ++ s := by
+    rw [List.take_append_of_le_length (by simp [h4]; omega), List.take_of_length_le (by simp [h4]; omega)]
+  refine ⟨?_, ?_, ht⟩
+  · show List.drop 4 (List.take (s.length + 4) _) = s
+    rw [ht]
+    rfl
+  · simp only [List.length_append, List.length_replicate, h4]
+    omega
 
 /-- kDate = HMAC("AWS4" + secret, YYYYMMDD), for every capacity up to one HMAC block. -/
 theorem kdate_spec (H : Bytes → Bytes) (M : Nat) (hM : M ≤ 64) (s : Bytes) (k : SecretKey)
     (h : secretFromStr M s = .ok k) (date : Int × Int × Int) :
     toKDate H k date = hmac H (AWS4 ++ s) (fmtDate date) := by
-  sorry
+  obtain ⟨hl, rfl⟩ := (secretFromStr_ok_iff M s k).1 h
+  unfold toKDate
+  apply hmac_zero_pad
+  simp only [List.length_append, AWS4_length]
+  omega
 
 /-- The whole chain: kSigning = HMAC(HMAC(HMAC(HMAC("AWS4"+secret, date), region), service), "aws4_request"). -/
 theorem ksigning_spec (H : Bytes → Bytes) (M : Nat) (hM : M ≤ 64) (s : Bytes) (k : SecretKey)
@@ -41,7 +62,9 @@ theorem ksigning_spec (H : Bytes → Bytes) (M : Nat) (hM : M ≤ 64) (s : Bytes
     toKService H k date region service =
       hmac H (hmac H (hmac H (AWS4 ++ s) (fmtDate date)) region) service ∧
     toKRegion H k date region = hmac H (hmac H (AWS4 ++ s) (fmtDate date)) region := by
-  sorry
+  have hk := kdate_spec H M hM s k h date
+  simp only [toKSigning, toKService, toKRegion, kdateToKSigning, kdateToKService, kregionToKSigning,
+    kserviceToKSigning, kregionToKService, kdateToKRegion, hk, and_self]
 
 /-- Every shortcut derivation equals the step-by-step one. -/
 theorem shortcuts_agree (H : Bytes → Bytes) (k : SecretKey) (date : Int × Int × Int) (region service : Bytes) :
@@ -52,13 +75,36 @@ theorem shortcuts_agree (H : Bytes → Bytes) (k : SecretKey) (date : Int × Int
     toKRegion H k date region = kr ∧ toKService H k date region service = ks ∧
     toKSigning H k date region service = kg ∧ kdateToKService H kd region service = ks ∧
     kdateToKSigning H kd region service = kg ∧ kregionToKSigning H kr service = kg := by
-  sorry
+  intro kd kr ks kg
+  exact ⟨rfl, rfl, rfl, rfl, rfl, rfl⟩
 
 /-- The date enters as exactly eight ASCII digits YYYYMMDD for every calendar date of years 0-9999. -/
 theorem fmtDate_shape (y m d : Int) (hy : 0 ≤ y ∧ y ≤ 9999) (hm : 1 ≤ m ∧ m ≤ 12) (hd : 1 ≤ d ∧ d ≤ 31) :
     (fmtDate (y, m, d)).length = 8 ∧ (∀ c ∈ fmtDate (y, m, d), isDigit c = true) ∧
     digitsVal (fmtDate (y, m, d)) = (y * 10000 + m * 100 + d).toNat := by
-  sorry
+  have hyy : (0 ≤ y ∧ y ≤ 9999) := hy
+  simp only [fmtDate, fmtYear, if_pos hyy, pad4, pad2]
+  refine ⟨rfl, ?_, ?_⟩
+  · intro c hc
+    simp only [List.cons_append, List.nil_append, List.mem_cons, List.not_mem_nil, or_false] at hc
+    rcases hc with h | h | h | h | h | h | h | h <;> subst h <;> exact isDigit_digitByte _
+  · simp only [digitsVal, List.cons_append, List.nil_append, List.foldl_cons, List.foldl_nil,
+      digitVal_digitByte]
+    have e1 := pad4_val y hy.1 hy.2
+    have e2 := pad2_val m (by omega) (by omega)
+    have e3 := pad2_val d (by omega) (by omega)
+    have e4 : (y * 10000 + m * 100 + d).toNat = y.toNat * 10000 + m.toNat * 100 + d.toNat := by
+      omega
+    rw [e4, ← e1, ← e2, ← e3]
+    generalize (y / 1000 % 10).toNat = a1
+    generalize (y / 100 % 10).toNat = a2
+    generalize (y / 10 % 10).toNat = a3
+    generalize (y % 10).toNat = a4
+    generalize (m / 10 % 10).toNat = a5
+    generalize (m % 10).toNat = a6
+    generalize (d / 10 % 10).toNat = a7
+    generalize (d % 10).toNat = a8
+    omega
 
 example : ∃ k, secretFromStr 44 b!"wJalrXUtnFEMI/K7MDENG+bPxRfiCYEXAMPLEKEY" = .ok k := ⟨_, rfl⟩
 example : secretFromStr 44 b!"short" ≠ .tooLong := by decide
